@@ -113,6 +113,9 @@ func localsText(rs []LRule) string {
 				fmt.Fprintf(&sb, "  conc {\n    %s = wrhold(e, %d)\n    noopc()\n  }\n", op.Name, n)
 			case "T":
 				fmt.Fprintf(&sb, "  stag.StopTag = tagv(e, %d)\n", n)
+			case "P":
+				// logged, then a non-boolean condition: a panic that only the rule-level recover turns into an error
+				fmt.Fprintf(&sb, "  rd(e, %d, 0)\n  if notb() {\n    zz%d = 1\n  }\n", n, n)
 			case "WI":
 				fmt.Fprintf(&sb, "  inj.%s = wr(e, %d)\n", op.Name, n)
 			case "RI":
@@ -181,6 +184,7 @@ func localsAPI() map[string]interface{} {
 		},
 		"boomc": func() { panic("conc branch fails") },
 		"noopc": func() {},
+		"notb":  func() int64 { return 1 },
 		// WF: a value for the injected field, not logged (the read-back logs what the local got)
 		"wrq2": func(e int64, i int64) int64 { return e*100 + i },
 		// WM / RM: a fresh object bound to a local, and a method that tells which object it ran on
